@@ -250,6 +250,19 @@ impl TryFrom<RawProof> for NamespaceProof {
 
         if !value.leaf_hash.is_empty() {
             proof.convert_to_absence_proof(NamespacedHash::from_raw(&value.leaf_hash)?);
+        } else if value.start == value.end && value.nodes.is_empty() {
+            // An empty proof (empty range, no nodes, no leaf hash) is how the absence of
+            // a namespace outside of the range covered by the root is encoded: there is
+            // no leaf to point at. It has to stay a proof of absence, a presence proof
+            // can never verify for such a namespace.
+            proof = NmtNamespaceProof::AbsenceProof {
+                proof: NmtProof {
+                    siblings: Vec::new(),
+                    range: value.start as u32..value.end as u32,
+                },
+                ignore_max_ns: value.is_max_namespace_ignored,
+                leaf: None,
+            };
         }
 
         Ok(NamespaceProof(proof))
